@@ -467,11 +467,10 @@ func (r *rw) rewriteFile(f *ast.File) bool {
 		default:
 			continue
 		}
-		if im.Name != nil && im.Name.Name != name {
-			fatalf("%s: renamed import of %s not supported", r.file, p)
-		}
 		im.Path.Value = strconv.Quote(np)
-		im.Name = ast.NewIdent(name)
+		if im.Name == nil { // (a renamed import keeps its name: the replacement package is a drop-in for the original)
+			im.Name = ast.NewIdent(name)
+		}
 		changed = true
 		r.counts["import"]++
 	}
